@@ -4,7 +4,10 @@ Every item rule of C01-C08 compares an item with a *mode-free* specification (a 
 list and the names).  An item that passes its rules in two configurations therefore behaves identically in both.
 This check runs all item rules over the configuration matrix: every explicit mode of the four moded features, auto
 under every co-feature set that steers it, on gapless and with-holes declarations, and on every other instance of
-the corpus.  What auto resolves to is not prescribed; whatever it resolves to is validated."""
+the corpus.  What auto resolves to is not prescribed; whatever it resolves to is validated.
+Non-interference: for a feature with a fixed explicit mode, its own items (function, trait impl, struct and its impls)
+must expand to identical token streams whether the feature stands alone, next to any other feature, or in the full
+set - so co-enabled features can influence an item only through its mode."""
 from lib import runner
 from props import c01, c02, c03, c04, c05, c06, c07, c08
 
@@ -23,10 +26,74 @@ def check_instance(inst, F, ctx, extra):
     if len(ctx.samples) < 6 and inst.rec['kind'] in ('steer', 'matrix'):
         ctx.sample({'instance': inst.describe()[:300], 'kind': inst.rec['kind'], 'items_validated_against_mode_free_spec': sorted(inst.feats)})
 
+import re
+_HELPER = re.compile(r'\b__(as_str|from_str|into|MAX|MIN|next|next_back|try_from|iter|names|range)\b')
+
+def _norm(tokens):
+    # a co-enabled feature may turn a private helper (`__MIN`) into the user-visible item (`MIN`): the cross-reference
+    # changes its name, not its meaning (the item behind either name is validated by its own rules)
+    return _HELPER.sub(lambda m: m.group(1), tokens)
+
+def own_items(mods_items, feature):
+    """token strings of the items that belong to `feature` in one expanded module: {label: tokens}"""
+    out = {}
+    trait_key = {'FromStr': ':: core :: str :: FromStr for E', 'TryFrom': ':: core :: convert :: TryFrom <', 'Debug': ':: core :: fmt :: Debug for E'}
+    for it in mods_items:
+        if it['kind'] != 'item':
+            continue
+        key = it.get('key', '')
+        if key == 'impl E':
+            for m in it.get('members', []):
+                if m['name'] == feature:
+                    out['fn ' + feature] = _norm(m['tokens'])
+        if feature in trait_key and trait_key[feature] in key:
+            out[key] = _norm(it['tokens'])
+        if feature in ('iter', 'names'):
+            sname = 'EIter' if feature == 'iter' else 'ENames'
+            if key == 'struct ' + sname or key.endswith('for ' + sname):
+                out[key] = _norm(it['tokens'])
+    return out
+
+def non_interference(ctx, tier, seed):
+    est, ex = runner.stage_expand(tier, seed)
+    fams = {}
+    for x in ex['instances']:
+        if x['kind'].startswith('noninterf:'):
+            fams.setdefault((x['kind'], x['family']), []).append(x)
+    n = 0
+    for (kind, fid), ms in sorted(fams.items()):
+        _, feature, mode = kind.split(':')
+        ref = None
+        for m in ms:
+            its = ex['mods'].get(m['id'])
+            if its is None:
+                continue
+            mine = own_items(its, feature)
+            if not mine:
+                ctx.error('non-interference: no item of %s found in %s' % (feature, m['id'])); continue
+            if ref is None:
+                ref = (m, mine); continue
+            if mine != ref[1]:
+                k = next((k for k in sorted(set(mine) | set(ref[1])) if mine.get(k) != ref[1].get(k)), '?')
+                a, b = ref[1].get(k, ''), mine.get(k, '')
+                j = next((i for i in range(min(len(a), len(b))) if a[i] != b[i]), min(len(a), len(b)))
+                ctx.violation('non-interference', None, '%s(mode=%s)' % (feature, mode), 'the expansion of `%s` of %s(mode=%s) depends on which other features are enabled: %s vs %s on %s: ...%s... vs ...%s...' % (
+                    k, feature, mode, ref[0]['member'], m['member'], ' '.join(str(v['value']) for v in sorted(m['decl']['variants'], key=lambda v: v['value'])), a[max(0, j - 50):j + 70], b[max(0, j - 50):j + 70]),
+                    key='C09/non-interference/%s/%s' % (feature, mode), construct='the generate() of %s and src/generator/features.rs::resolve' % feature)
+                break
+        else:
+            if ref is not None:
+                n += 1
+                ctx.ok('non-interference', n=len(ms) - 1)
+    if n < 20:
+        ctx.error('only %d non-interference families compared (floor 20)' % n)
+    return n
+
 def main(tier, seed, t0):
     st, d = runner.stage_inst(tier, seed)
     ctx, n = runner.run_instances('props.c09', d)
+    nfam = non_interference(ctx, tier, seed)
     return runner.finish(PROP, tier, seed, 'translation_validation', ctx, t0,
-                         coverage_extra={'instances_in_corpus': n, 'cache_hit': st.hit, 'tree': st.tree},
+                         coverage_extra={'instances_in_corpus': n, 'non_interference_families': nfam, 'cache_hit': st.hit, 'tree': st.tree},
                          nontrivial_rule='distinct (repr, value-shape, mode vector of as_str/from_str/FromStr/iter, feature set) tuples',
                          assumptions=['behavioural equality across configurations follows from every configuration passing the same mode-free rules; it is not observed by running anything'])
